@@ -75,8 +75,8 @@ theorem matmul_correct (C R C2 : Nat) (hs : [C, R, C2] ∈ shapes3) (c r : Nat) 
     calc c * R + r < c * R + R := by omega
       _ = (c + 1) * R := by ring
       _ ≤ C2 * R := Nat.mul_le_mul_right R hc
-  have := Family.poly_sound (R := R') ringOps_ringLike mul_ok rfl (ks := [C, R, C2]) hs hj env
-  rw [show lookup "mul" [C, R, C2] = lookup f_mul.unit [C, R, C2] from rfl, Family.out_eval _ mul_ok hs]
+  have := Family.poly_sound (R := R') ringOps_ringLike mul_ok rfl rfl (ks := [C, R, C2]) hs hj env
+  rw [show lookup "mul" [C, R, C2] = lookup f_mul.unit [C, R, C2] from rfl, Family.out_eval _ mul_ok rfl hs]
   refine this.trans ?_
   show (mul C R C2 (c * R + r)).eval (ringOps R') env = _
   have h1 : (c * R + r) % R = r := by rw [Nat.mul_comm, Nat.mul_add_mod]; exact Nat.mod_eq_of_lt hr
@@ -89,8 +89,8 @@ theorem matmul_correct (C R C2 : Nat) (hs : [C, R, C2] ∈ shapes3) (c r : Nat) 
 theorem matvec_correct (C R : Nat) (hs : [C, R] ∈ shapes) (r : Nat) (hr : r < R) (env : Nat → R') :
     ((lookup "mulmv" [C, R]).out r).eval (ringOps R') env
       = ((List.range C).map fun c => env (c * R + r) * env (C * R + c)).sum := by
-  have := Family.poly_sound (R := R') ringOps_ringLike mulmv_ok rfl (ks := [C, R]) hs (j := r) hr env
-  rw [show lookup "mulmv" [C, R] = lookup f_mulmv.unit [C, R] from rfl, Family.out_eval _ mulmv_ok hs]
+  have := Family.poly_sound (R := R') ringOps_ringLike mulmv_ok rfl rfl (ks := [C, R]) hs (j := r) hr env
+  rw [show lookup "mulmv" [C, R] = lookup f_mulmv.unit [C, R] from rfl, Family.out_eval _ mulmv_ok rfl hs]
   refine this.trans ?_
   show (mulmv C R r).eval (ringOps R') env = _
   simp only [mulmv, sumE_eval, List.map_map]
@@ -100,8 +100,8 @@ theorem matvec_correct (C R : Nat) (hs : [C, R] ∈ shapes) (r : Nat) (hr : r < 
 theorem vecmat_correct (C R : Nat) (hs : [C, R] ∈ shapes) (c : Nat) (hc : c < C) (env : Nat → R') :
     ((lookup "mulvm" [C, R]).out c).eval (ringOps R') env
       = ((List.range R).map fun r => env r * env (R + c * R + r)).sum := by
-  have := Family.poly_sound (R := R') ringOps_ringLike mulvm_ok rfl (ks := [C, R]) hs (j := c) hc env
-  rw [show lookup "mulvm" [C, R] = lookup f_mulvm.unit [C, R] from rfl, Family.out_eval _ mulvm_ok hs]
+  have := Family.poly_sound (R := R') ringOps_ringLike mulvm_ok rfl rfl (ks := [C, R]) hs (j := c) hc env
+  rw [show lookup "mulvm" [C, R] = lookup f_mulvm.unit [C, R] from rfl, Family.out_eval _ mulvm_ok rfl hs]
   refine this.trans ?_
   show (mulvm C R c).eval (ringOps R') env = _
   simp only [mulvm, sumE_eval, List.map_map]
@@ -118,8 +118,8 @@ theorem conv_correct {α : Type} (o : Ops α) (C R C2 R2 : Nat) (hs : [C, R, C2,
     calc c * R + r < c * R + R := by omega
       _ = (c + 1) * R := by ring
       _ ≤ C * R := Nat.mul_le_mul_right R hc
-  have := Family.syn_sound o conv_ok rfl (ks := [C, R, C2, R2]) hs hj env
-  rw [show lookup "conv" [C, R, C2, R2] = lookup f_conv.unit [C, R, C2, R2] from rfl, Family.out_eval _ conv_ok hs]
+  have := Family.syn_sound o conv_ok rfl rfl (ks := [C, R, C2, R2]) hs hj env
+  rw [show lookup "conv" [C, R, C2, R2] = lookup f_conv.unit [C, R, C2, R2] from rfl, Family.out_eval _ conv_ok rfl hs]
   refine this.trans ?_
   show (conv C R C2 R2 (c * R + r)).eval o env = _
   have h1 : (c * R + r) % R = r := by rw [Nat.mul_comm, Nat.mul_add_mod]; exact Nat.mod_eq_of_lt hr
@@ -132,25 +132,25 @@ theorem conv_correct {α : Type} (o : Ops α) (C R C2 R2 : Nat) (hs : [C, R, C2,
 
 /-- **the whole polynomial part of C02 at once**: every output component of every traced unit of a
 `poly` family equals its textbook definition in every commutative ring, for every input. -/
-theorem poly_families_correct (f : Family) (hf : f ∈ families) (hk : f.kind = .poly)
+theorem poly_families_correct (f : Family) (hf : f ∈ families) (htm : f.treeMode = false) (hk : f.kind = .poly)
     (ks : List Nat) (hks : ks ∈ f.keys) (j : Nat) (hj : j < f.nOut ks) (env : Nat → R') :
     (f.post ks (lookup f.unit ks).outE j).eval (ringOps R') env = (f.spec ks j).eval (ringOps R') env :=
-  Family.poly_sound ringOps_ringLike (all_ok f hf) hk hks hj env
+  Family.poly_sound ringOps_ringLike (all_ok f hf) htm hk hks hj env
 
 /-- the same for the `syn` families (access, assignment, conversions, constructors), in every semantics -/
-theorem syn_families_correct {α : Type} (o : Ops α) (f : Family) (hf : f ∈ families) (hk : f.kind = .syn)
+theorem syn_families_correct {α : Type} (o : Ops α) (f : Family) (hf : f ∈ families) (htm : f.treeMode = false) (hk : f.kind = .syn)
     (ks : List Nat) (hks : ks ∈ f.keys) (j : Nat) (hj : j < f.nOut ks) (env : Nat → α) :
     (f.post ks (lookup f.unit ks).outE j).eval o env = (f.spec ks j).eval o env :=
-  Family.syn_sound o (all_ok f hf) hk hks hj env
+  Family.syn_sound o (all_ok f hf) htm hk hks hj env
 
 /-- and for division by / of a scalar, in every field of characteristic zero, whenever the divisors
 the code uses are non-zero -/
-theorem frac_families_correct {K : Type} [Field K] [CharZero K] (f : Family) (hf : f ∈ families)
+theorem frac_families_correct {K : Type} [Field K] [CharZero K] (f : Family) (hf : f ∈ families) (htm : f.treeMode = false)
     (hk : f.kind = .frac) (ks : List Nat) (hks : ks ∈ f.keys) (j : Nat) (hj : j < f.nOut ks)
     (env : Nat → K)
     (hall : ∀ a ∈ f.allowed ks, a.divOK (fieldOps K) env ∧ a.eval (fieldOps K) env ≠ 0) :
     (f.post ks (lookup f.unit ks).outE j).eval (fieldOps K) env = (f.spec ks j).eval (fieldOps K) env :=
-  (Family.frac_sound fieldOps_fieldLike (all_ok f hf) hk hks hj env hall).2
+  (Family.frac_sound fieldOps_fieldLike (all_ok f hf) htm hk hks hj env hall).2
 
 /-- non-vacuity: the tables are not empty and the units are not the default unit -/
 example : (lookup "mul" [4, 3, 4]).nIn = 28 ∧ (lookup "mul" [4, 3, 4]).outs.length = 12 ∧
